@@ -72,6 +72,27 @@ pub trait Host {
     fn flush(&mut self) -> Obs {
         Obs::default()
     }
+    /// requests this host currently holds (model-free drivers pick their actions from here)
+    fn keys(&self) -> Vec<(Key, u8)> {
+        vec![]
+    }
+}
+
+fn table_keys(table: &HashMap<Key, ReqObj>) -> Vec<(Key, u8)> {
+    let mut v: Vec<(Key, u8)> = table
+        .iter()
+        .map(|(k, r)| {
+            (
+                *k,
+                match r {
+                    ReqObj::Op(r) => r.operation.kind,
+                    ReqObj::Sig(_) => KIND_NEVER,
+                },
+            )
+        })
+        .collect();
+    v.sort();
+    v
 }
 
 pub enum ReqObj {
@@ -152,6 +173,9 @@ fn resolve_obj(obj: &mut ReqObj, val: u64) -> bool {
 pub struct Direct<Ef: LabEffect> {
     cmd: Option<Command<Ef, Event>>,
     table: HashMap<Key, ReqObj>,
+    /// lagging holder: sometimes takes the effects only and leaves the events queued inside the
+    /// command while the next action happens; asks `is_done()` before it drains
+    lag: Option<vcommon::Rng>,
 }
 
 impl<Ef: LabEffect> Direct<Ef> {
@@ -159,10 +183,48 @@ impl<Ef: LabEffect> Direct<Ef> {
         Direct {
             cmd: None,
             table: HashMap::new(),
+            lag: None,
+        }
+    }
+
+    pub fn lagging() -> Self {
+        Direct {
+            lag: Some(vcommon::Rng::new(0)),
+            ..Self::new()
         }
     }
 
     fn observe(&mut self, out: &mut Obs) {
+        self.observe_with(out, false)
+    }
+
+    fn observe_with(&mut self, out: &mut Obs, flush: bool) {
+        if let Some(rng) = self.lag.as_mut() {
+            let cmd = self.cmd.as_mut().expect("started");
+            // a holder's loop `while !cmd.is_done() { take outputs }` relies on this: done means
+            // nothing is left to take
+            let done_first = cmd.is_done();
+            let effects: Vec<Ef> = cmd.effects().collect();
+            let leave_events = !flush && rng.chance(1, 2);
+            let events: Vec<Event> = if leave_events { vec![] } else { cmd.events().collect() };
+            if done_first && (!effects.is_empty() || !events.is_empty()) {
+                out.anomalies.push(format!(
+                    "is_done() was true while outputs were still queued: effects={} events={}",
+                    effects.len(),
+                    events.len()
+                ));
+            }
+            for e in effects {
+                obs_effect(e, &mut self.table, out);
+            }
+            for e in events {
+                obs_event(e, out);
+            }
+            if leave_events {
+                out.partial = true;
+                return;
+            }
+        }
         let cmd = self.cmd.as_mut().expect("started");
         // one pass is enough at quiescence; a second pass that still yields output is
         // recorded but not an anomaly by itself (the model decides)
@@ -200,7 +262,11 @@ impl<Ef: LabEffect> Direct<Ef> {
 
 impl<Ef: LabEffect> Host for Direct<Ef> {
     fn name(&self) -> &'static str {
-        "Direct"
+        if self.lag.is_some() {
+            "DirectLag"
+        } else {
+            "Direct"
+        }
     }
     fn caps(&self) -> Caps {
         Caps {
@@ -217,10 +283,18 @@ impl<Ef: LabEffect> Host for Direct<Ef> {
     }
     fn prepare(&mut self, program: &Cmd) {
         self.cmd = Some(build::<Ef>(program));
+        if self.lag.is_some() {
+            self.lag = Some(vcommon::Rng::derive(vcommon::hash_json(program), 0, 78));
+        }
     }
     fn first_poll(&mut self) -> Obs {
         let mut out = Obs::default();
         self.observe(&mut out);
+        out
+    }
+    fn flush(&mut self) -> Obs {
+        let mut out = Obs::default();
+        self.observe_with(&mut out, true);
         out
     }
     fn start(&mut self, program: &Cmd) -> Obs {
@@ -251,6 +325,9 @@ impl<Ef: LabEffect> Host for Direct<Ef> {
         }
         self.observe(&mut out);
         out
+    }
+    fn keys(&self) -> Vec<(Key, u8)> {
+        table_keys(&self.table)
     }
     fn finish(&mut self) -> Vec<String> {
         self.table.clear();
@@ -456,6 +533,9 @@ impl<Ef: LabEffect> Host for StreamHost<Ef> {
         let limit = self.limit();
         self.drain(woken, false, limit, &mut out);
         out
+    }
+    fn keys(&self) -> Vec<(Key, u8)> {
+        table_keys(&self.table)
     }
     fn finish(&mut self) -> Vec<String> {
         self.table.clear();
@@ -844,6 +924,9 @@ where
         self.observe(effects, &mut out);
         out
     }
+    fn keys(&self) -> Vec<(Key, u8)> {
+        table_keys(&self.table)
+    }
     fn finish(&mut self) -> Vec<String> {
         self.table.clear();
         vec![]
@@ -1087,6 +1170,11 @@ where
             batch: 0,
             order_twin: true,
         }
+    }
+    fn keys(&self) -> Vec<(Key, u8)> {
+        let mut v: Vec<(Key, u8)> = self.ids.iter().map(|(k, (_, kind))| (*k, *kind)).collect();
+        v.sort();
+        v
     }
     fn start(&mut self, program: &Cmd) -> Obs {
         let mut out = Obs::default();
